@@ -3,6 +3,14 @@ families = correspondence families (harness `gen <fam>`) with quick-tier op coun
 monitor = number of monitor cases in the quick tier (harness `monitor <id>`)."""
 
 PROPS = {
+    "C02": {
+        "families": {"wrapper": 20000, "bank": 6000},
+        "monitor": 20000,
+        "assumptions": [
+            "every instruction that changes a position goes through BankAccountWrapper (deposit, repay, withdraw, borrow, liquidation legs, bankruptcy repay, withdraw_all, repay_all, close_balance); purge / transfer-to-new-account are covered at instruction level only (see DESIGN §4 C02)",
+            "amounts submitted by instructions are unsigned (u64 arguments)",
+        ],
+    },
     "C03": {
         "families": {"wrapper": 20000, "tokenfee": 10000, "fx": 4000},
         "monitor": 20000,
@@ -53,6 +61,12 @@ _NOTE = ("Trusted: Lean kernel; axioms propext/Classical.choice/Quot.sound only 
          "and by diffing model vs real code on generated operations. ")
 
 MANIFEST_TEXT = {
+    "C02": {
+        "text": "Machine-checked Lean 4 invariant over ALL histories (induction over arbitrary op lists, any number of positions): bank.total_asset_shares = sum of position asset shares + dustA, likewise liabilities, dust >= 0, all shares >= 0; every increase/decrease changes a bank total by exactly the change of the one position it touches (delta-equality theorems); dust grows only in withdraw_all / repay_all / close_balance by the abandoned other-side shares whose value the code checked to be below ZERO_AMOUNT_THRESHOLD; corollary: the close_bank tolerance test forces every position in the bank below the threshold. Model diffed against the real wrapper on ~26k steps/run; the same sum identity is monitored on a real Bank with several real Balances over random histories.",
+        "design_ref": "DESIGN.md §4 C02",
+        "note": _NOTE,
+        "technique": "Lean 4 proof: inductive ledger invariant over operation histories with ghost dust counters; model/implementation correspondence check",
+    },
     "C03": {
         "text": "Machine-checked Lean 4 theorems in exact integer arithmetic (2^-96 token units): any successful balance increase by delta raises the position's net value by at most delta (deposit/repay/liquidation credit never credit more than paid); any successful decrease by delta lowers it by more than delta - (asv+lsv)*2^-48; withdraw_all pays floor() <= exact deposit value, repay_all charges ceil() > exact debt - 1 ulp; shares stay non-negative; hence for EVERY sequence of deposits/withdrawals/borrows/repayments (induction over arbitrary op lists, any amounts/timestamps, failed ops skipped) wallet + net position value grows by less than n*(asv+lsv)*2^-48 tokens; Token-2022: pre_fee(post) - fee(pre_fee) >= post for every bps in [0,10000], cap and amount. Model diffed against the real BankAccountWrapper and fee functions (~30k ops/run); same inequalities monitored with big integers on the real structs.",
         "design_ref": "DESIGN.md §4 C03",
